@@ -614,6 +614,8 @@ def r8_shared_objects(ctx):
     c03.r5_shared_state(sub)                                     # process-global scratch state (learning_info) is cleared at the start of every evaluation
     c08.ROLES = c08.Roles(sub.fn(c08.PMP, "Multiprocessor.filter"))
     c08.r5_limit(sub, sub.fn(c08.PMP, "Multiprocessor.filter"))
+    from . import c02
+    c02.chunker_partitions(sub, "C01.R8")   # maxtasksperchunk only re-groups the tasks
     for o in sub.obs:
         o.rule = "C01.R8"
         ctx.obs.append(o)
